@@ -86,27 +86,36 @@ def arrScalars (n : Nat) : List Opt → List String
   | _ :: rest => ind n "," :: arrScalars n rest
 end
 
-/-- `parsedOption.inlineString` (`nil` = `none`) -/
+/-- `inlineValue` (`nil` = `none`); a list never gets here (see `statements`) -/
 def inlineString (singleLine : Bool) (root : Opt) : Option String :=
   if !singleLine then none else
   match root with
   | .msg _ [] => some "{}"
   | .msg _ [.scalar k v] => some ("{" ++ k ++ ": " ++ v ++ "}")
   | .msg _ _ => none
-  | .arr _ [] => some "[]"
   | .arr _ _ => none
   | .scalar _ v => some v
 
-/-- `printOption` (statement form, `option name = …;`) on a builder with indentation `n` -/
-def optionStmt (n : Nat) (name : String) (singleLine : Bool) (root : Opt) : List String :=
+/-- `parseOption`: the values an option is written as — one statement, or one per element for a
+repeated option (fix: the list syntax `[a, b]` only exists inside a message literal) -/
+def statements : Opt → List Opt
+  | .arr _ kids => kids
+  | o => [o]
+
+/-- `printOptionStatement` on a builder with indentation `n` -/
+def optionStmt1 (n : Nat) (name : String) (singleLine : Bool) (root : Opt) : List String :=
   match inlineString singleLine root with
   | some s => [ind n ("option " ++ name ++ " = " ++ s ++ ";")]
   | none =>
     match root with
     | .msg _ [] => [ind n ("option " ++ name ++ " = {};")]
     | .msg _ kids => (ind n ("option " ++ name ++ " = {") :: msgFields n kids) ++ [ind n "};"]
-    | .arr _ kids => arrLines n ("option " ++ name ++ " = ") kids ";"
+    | .arr _ _ => []     -- no case in the Go switch
     | .scalar _ v => [ind n ("option " ++ name ++ " = " ++ v ++ ";")]
+
+/-- `printOption` (statement form, `option name = …;`) on a builder with indentation `n` -/
+def optionStmt (n : Nat) (name : String) (singleLine : Bool) (root : Opt) : List String :=
+  ((statements root).map (optionStmt1 n name singleLine)).flatten
 
 /-- one parsed option of a field / enum value -/
 structure POpt where
@@ -142,13 +151,23 @@ def fieldStyle (n : Nat) (head : String) (number : String) (opts : List POpt) : 
            | none =>
              match o.root with
              | .msg _ kids => (ind (n + 1) (o.name ++ " = {") :: msgFields (n + 1) kids) ++ [ind (n + 1) ("}" ++ trailer)]
-             | .arr _ kids => arrLines (n + 1) (o.name ++ " = ") kids trailer
+             | .arr _ _ => []     -- no case in the Go switch (`statements` leaves no list at the root)
              | .scalar _ v => [ind (n + 1) (o.name ++ " = " ++ v ++ trailer)]) ++ body rest
       (ind n (head ++ " = " ++ number ++ " [") :: body opts) ++ [ind n "];"]
 
-/-- `optionsFor`: parse every option, then sort by qualified name -/
+/-- insertion that keeps equal elements in their order -/
+def insertStable {α} (lt : α → α → Bool) (x : α) : List α → List α
+  | [] => [x]
+  | y :: ys => if lt x y then x :: y :: ys else y :: insertStable lt x ys
+
+/-- a stable sort (`slices.SortStableFunc`): insert from the right, before the first greater one -/
+def stableSort {α} (lt : α → α → Bool) (l : List α) : List α :=
+  l.foldl (fun acc x => insertStable lt x acc) []
+
+/-- `optionsFor`: parse every option, then sort by qualified name; stable, so that the statements of
+one repeated option keep the order of the elements -/
 def sortByName (opts : List POpt) : List POpt :=
-  isort (fun a b => nameLess (a.name.toUTF8.toList.map (·.toNat)) (b.name.toUTF8.toList.map (·.toNat))) opts
+  stableSort (fun a b => nameLess (a.name.toUTF8.toList.map (·.toNat)) (b.name.toUTF8.toList.map (·.toNat))) opts
 
 /-! ## the value literal as tokens, and a parser for it -/
 
